@@ -108,6 +108,9 @@ class Table:
         """`return helper(...)` where helper is a small multi-return repo function: splice the helper's rows in."""
         if depth >= self.inline_depth or not isinstance(s.value, ast.Call):
             return None
+        fv = s.value.func.value if isinstance(s.value.func, ast.Attribute) else None
+        if isinstance(fv, ast.Call) and isinstance(fv.func, ast.Name) and fv.func.id == "super":
+            return None      # delegation to the base implementation is kept as such
         tg = self.ctx.types.resolve_call(s.value, fi)
         if len(tg.repo) != 1 or tg.ctor or tg.ext or tg.by_name or tg.unknown:
             return None
